@@ -66,9 +66,16 @@ type Upstream struct {
 
 // NewUpstream starts a scripted upstream on a free loopback port.
 func NewUpstream(proto string, script func(r *Req) Action) *Upstream {
-	ln, err := net.Listen("tcp", "127.0.0.1:0")
+	var ln net.Listener
+	var err error
+	for i := 0; i < 200; i++ { // ephemeral ports can be exhausted for a moment on a busy machine
+		if ln, err = net.Listen("tcp", "127.0.0.1:0"); err == nil {
+			break
+		}
+		time.Sleep(50 * time.Millisecond)
+	}
 	if err != nil {
-		panic(err)
+		panic(fmt.Sprintf("VERIF-INFRA mesh.NewUpstream: %v", err))
 	}
 	u := &Upstream{Proto: proto, Addr: ln.Addr().String(), Script: script, ln: ln, conns: map[int]net.Conn{}, closedCh: make(chan struct{})}
 	go u.acceptLoop()
@@ -129,7 +136,7 @@ func (u *Upstream) Close() {
 	_ = u.ln.Close()
 	u.mu.Lock()
 	for _, c := range u.conns {
-		_ = c.Close()
+		rstClose(c) // RST: no TIME_WAIT socket left behind per connection
 	}
 	u.mu.Unlock()
 	u.wg.Wait()
@@ -680,7 +687,7 @@ func (c *H1Client) Extra(d time.Duration) ([]byte, bool) {
 	return append([]byte(nil), out...), true
 }
 
-func (c *H1Client) Close() { _ = c.C.Close() }
+func (c *H1Client) Close() { rstClose(c.C) }
 
 // NewH2Transport returns an x/net HTTP/2 client transport speaking prior-knowledge h2c.
 func NewH2Transport() *http2.Transport {
@@ -753,7 +760,7 @@ func (x *XClient) WaitN(n int, d time.Duration) ([][]byte, bool) {
 	}
 }
 
-func (x *XClient) Close() { _ = x.C.Close(); <-x.done }
+func (x *XClient) Close() { rstClose(x.C); <-x.done }
 
 // HeaderGet finds a header case-insensitively in a [][2]string list.
 func HeaderGet(h [][2]string, name string) (string, bool) {
